@@ -223,4 +223,30 @@ inline bool utf8_structurally_valid(const std::string &s) {
 }
 inline bool all_ascii(const std::string &s) { for (unsigned char c : s) if (c >= 0x80) return false; return true; }
 
+// ---------------------------------------------------------------------------------------------
+// Additions for long haystacks (C07 extension).  Same definitions as find()/find_last() above, answered from the
+// list of ALL occurrences, which is computed by one naive pass per (haystack, needle, case mode) - so that many
+// start/limit queries on a haystack of tens of KB stay cheap.
+
+// every index at which n occurs in h (entirely inside h), ascending; none for the empty needle
+inline std::vector<size_t> all_occurrences(const std::string &h, const std::string &n, bool ci) {
+    std::vector<size_t> o;
+    if (n.empty() || n.size() > h.size()) return o;
+    for (size_t i = 0; i + n.size() <= h.size(); i++) if (occurs_at(h, i, n, ci)) o.push_back(i);
+    return o;
+}
+// smallest occurrence at or after start; -1 when there is none or start is at or past the end
+inline idx_t find_in(const std::vector<size_t> &occ, size_t hsize, size_t start) {
+    if (start >= hsize) return -1;
+    for (size_t i : occ) if (i >= start) return (idx_t)i;
+    return -1;
+}
+// largest occurrence lying entirely before limit (and inside the haystack)
+inline idx_t find_last_in(const std::vector<size_t> &occ, size_t hsize, size_t nsize, size_t limit) {
+    const size_t end = limit < hsize ? limit : hsize;
+    idx_t best = -1;
+    for (size_t i : occ) { if (nsize > end || i > end - nsize) break; best = (idx_t)i; }
+    return best;
+}
+
 }  // namespace ref
